@@ -97,6 +97,7 @@ def _rules():
         "block-wire": [
             lambda R, c, rid: wire_rules._wire(R, c, rid, ["Block", "Update", "IdSet", "IdRanges", "Range"]),
             lambda R, c, rid: shared.string_column_units(R, c, rid),
+            lambda R, c, rid: accessors.options_codec(R, c, rid),
         ],
         "merge": [
             lambda R, c, rid: c08.rule_e(R, c, rid),
